@@ -29,11 +29,11 @@ Definition nth_rec (f : list sierec) (i : Z) : option sierec :=
   if i <? 0 then None else nth_error f (Z.to_nat i).
 
 (* overwrite (or append) records at index i *)
-Definition rec_overwrite (f : list sierec) (i : Z) (new : list sierec) : list sierec :=
+Definition rec_overwrite (zero : sample) (f : list sierec) (i : Z) (new : list sierec) : list sierec :=
   let k := Z.to_nat i in
   (* writing past the end leaves a hole of zero bytes (it is always filled by the
      insertion that follows in _GD_SampIndWrite) *)
-  firstn k f ++ repeat (0, []) (k - length f) ++ new ++ skipn (k + length new) f.
+  firstn k f ++ repeat (0, zero) (k - length f) ++ new ++ skipn (k + length new) f.
 
 (* _GD_Advance: returns (state, eof) *)
 Definition advance (st : sie) : sie * bool :=
@@ -70,11 +70,11 @@ Definition sie_seek (zero : sample) (write : bool) (sample : Z) (st : sie) : sie
         if sample_eqb (snd (cd st2)) zero && (0 <? fpos st2) then
           (* lengthen the current (zero) record *)
           let d' := (sample, snd (cd st2)) in
-          mkSie (rec_overwrite (recs st2) (fpos st2 - 1) [d']) (fpos st2) (cr st2) (cp st2) sample d'
+          mkSie (rec_overwrite zero (recs st2) (fpos st2 - 1) [d']) (fpos st2) (cr st2) (cp st2) sample d'
                 (cl st2) (have_l st2) (bof st2) (filepos st2)
         else
           let d' := (sample, zero) in
-          mkSie (rec_overwrite (recs st2) (fpos st2) [d']) (fpos st2 + 1) (cr st2 + 1) (cp st2) sample d'
+          mkSie (rec_overwrite zero (recs st2) (fpos st2) [d']) (fpos st2 + 1) (cr st2 + 1) (cp st2) sample d'
                 (cd st2) true false (filepos st2)
       else st2 in
     set_pos st3 sample.
@@ -85,7 +85,8 @@ Fixpoint read_loop (fuel : nat) (nelem : Z) (count : Z) (out : list sample) (st 
   | O => (st, count, out)
   | S f =>
     if cs st - cp st <? nelem - count then
-      let k := cs st - cp st + 1 in
+      (* a record ending before the current position contributes nothing *)
+      let k := if cp st <=? cs st then cs st - cp st + 1 else 0 in
       let out' := out ++ repeat (snd (cd st)) (Z.to_nat k) in
       let count' := count + k in
       let '(st', eof) := advance st in
@@ -133,7 +134,7 @@ Fixpoint count_out (fuel : nat) (endv : Z) (rout : Z) (st : sie) : sie * Z :=
    result is the size fstat() will report next time if nothing flushes the
    stream in between (the final fwrite of the new records is not flushed
    unless the file is truncated). *)
-Definition sie_write_n (nrec : Z) (data : list sample) (st : sie) : option (sie * Z) :=
+Definition sie_write_n (zero : sample) (nrec : Z) (data : list sample) (st : sie) : option (sie * Z) :=
   match data with
   | [] => Some (st, nrec)
   | d0 :: _ =>
@@ -184,12 +185,14 @@ Definition sie_write_n (nrec : Z) (data : list sample) (st : sie) : option (sie 
       let '(st2, rout) := count_out (S (length (recs st1))) endv rout0 st1 in
       let ntrail := nrec - (fr + rout) in
       let f1 := if 0 <? ntrail
-                then rec_overwrite (recs st2) (fr + rin)
+                then rec_overwrite zero (recs st2) (fr + rin)
                        (firstn (Z.to_nat ntrail) (skipn (Z.to_nat (fr + rout)) (recs st2)))
                 else recs st2 in
-      let f2 := rec_overwrite f1 fr pb in
+      let f2 := rec_overwrite zero f1 fr pb in
       let f3 := if rin <? rout then firstn (Z.to_nat (nrec - rout + rin)) f2 else f2 in
       let dl := last pb first in
+      if (rin <? rout) && (nrec - rout + rin <? 0) then None   (* ftruncate to a negative size fails *)
+      else
       Some (mkSie f3 (fr + rin) (fr + rin - 1) (fst dl) (fst dl) dl (cl st2) false (rin <=? 1) (fst dl),
             if rin <? rout then Z.of_nat (length f3) else Z.of_nat (length f1))
     end
@@ -211,7 +214,7 @@ Definition sie_put (zero : sample) (p : Z) (data : list sample) (h : sieh) : opt
   | _ =>
     let st1 := sie_seek zero true p (sh h) in
     let nrec := if seek_is_noop p (sh h) then disk_n h else Z.of_nat (length (recs st1)) in
-    match sie_write_n nrec data st1 with
+    match sie_write_n zero nrec data st1 with
     | Some (st2, dn) => Some (mkSieh st2 dn)
     | None => None
     end
@@ -223,7 +226,7 @@ Definition sie_put_flushed (zero : sample) (p : Z) (data : list sample) (h : sie
   | [] => Some h
   | _ =>
     let st1 := sie_seek zero true p (sh h) in
-    match sie_write_n (Z.of_nat (length (recs st1))) data st1 with
+    match sie_write_n zero (Z.of_nat (length (recs st1))) data st1 with
     | Some (st2, _) => Some (mkSieh st2 (Z.of_nat (length (recs st2))))
     | None => None
     end
